@@ -186,6 +186,8 @@ class Statement(object):
         """
         try:
             self.code_pkg = self.operand.translate()
+            if self.code_pkg.additional_needs_resolution and not self.code_pkg.post_byte_choices:
+                raise OperandTypeError("[{}] a label offset requires PCR".format(self.operand.operand_string))
             self.fixed_size = not (self.code_pkg.additional_needs_resolution or self.code_pkg.post_byte_choices)
         except Exception as error:
             raise TranslationError(str(error), self)
